@@ -74,7 +74,7 @@ func NodePool(rng *rand.Rand, name string, cfg PoolCfg) *v1.NodePool {
 			},
 		},
 	}
-	var reqs []Req
+	reqs := []Req{}
 	if rng.Float64() < cfg.PRequirement {
 		switch rng.Intn(3) {
 		case 0:
